@@ -3,11 +3,21 @@ package checks
 import (
 	"bufio"
 	"bytes"
+	"crypto/ecdsa"
+	"crypto/elliptic"
+	crand "crypto/rand"
+	"crypto/tls"
+	"crypto/x509"
+	"crypto/x509/pkix"
 	"encoding/binary"
 	"encoding/hex"
+	"encoding/pem"
 	"fmt"
+	"math/big"
+	"net"
 	"os"
 	"os/exec"
+	"path/filepath"
 	"strings"
 	"sync"
 	"syscall"
@@ -43,6 +53,44 @@ type victim struct {
 	hosts    int
 	conns    int
 	kind     string
+	tls      *tls.Config // non-nil: the victim's listener speaks TLS (--proxy-cert-file / --proxy-key-file)
+}
+
+// dial opens a well-behaved client connection the way the victim's listener expects it.
+func (v *victim) dial() (*rawcli.Client, error) {
+	if v.tls != nil {
+		return rawcli.DialTLS(v.addr, v.tls)
+	}
+	return rawcli.Dial(v.addr)
+}
+
+// c17ServerCert writes a self-signed certificate and key for 127.0.0.1 and returns their paths.
+func c17ServerCert() (certFile, keyFile string, err error) {
+	key, err := ecdsa.GenerateKey(elliptic.P256(), crand.Reader)
+	if err != nil {
+		return "", "", err
+	}
+	tmpl := &x509.Certificate{SerialNumber: big.NewInt(17), Subject: pkix.Name{CommonName: "cql-proxy under test"}, NotBefore: time.Now().Add(-time.Hour), NotAfter: time.Now().Add(24 * time.Hour),
+		KeyUsage: x509.KeyUsageDigitalSignature, ExtKeyUsage: []x509.ExtKeyUsage{x509.ExtKeyUsageServerAuth}, IPAddresses: []net.IP{net.ParseIP("127.0.0.1")}, DNSNames: []string{"localhost"}}
+	der, err := x509.CreateCertificate(crand.Reader, tmpl, tmpl, &key.PublicKey, key)
+	if err != nil {
+		return "", "", err
+	}
+	kb, err := x509.MarshalPKCS8PrivateKey(key)
+	if err != nil {
+		return "", "", err
+	}
+	dir := os.Getenv("VERIF_OUTDIR")
+	if dir == "" {
+		dir = os.TempDir()
+	}
+	shard, _ := evid.Shard()
+	certFile, keyFile = filepath.Join(dir, fmt.Sprintf("tls-%d-cert.pem", shard)), filepath.Join(dir, fmt.Sprintf("tls-%d-key.pem", shard))
+	if err = os.WriteFile(certFile, pem.EncodeToMemory(&pem.Block{Type: "CERTIFICATE", Bytes: der}), 0o600); err != nil {
+		return "", "", err
+	}
+	err = os.WriteFile(keyFile, pem.EncodeToMemory(&pem.Block{Type: "PRIVATE KEY", Bytes: kb}), 0o600)
+	return certFile, keyFile, err
 }
 
 func (v *victim) alive() bool {
@@ -102,7 +150,7 @@ func (v *victim) output() string {
 }
 
 // startVictim starts the child; realBinary selects cql-proxy (default timers) or proxyhost.
-func startVictim(realBinary bool, maxV, hosts, conns int) (*victim, error) {
+func startVictim(realBinary bool, maxV, hosts, conns int, useTLS bool) (*victim, error) {
 	cl, err := fakecass.New(hosts)
 	if err != nil {
 		return nil, err
@@ -122,8 +170,18 @@ func startVictim(realBinary bool, maxV, hosts, conns int) (*victim, error) {
 			return nil, fmt.Errorf("VERIF_BIN not set")
 		}
 		v.addr = fmt.Sprintf("127.0.0.1:%d", freePort())
-		v.cmd = exec.Command(bin, "--bind", v.addr, "--contact-points", cl.HostIP(0), "--port", fmt.Sprint(cl.Port), "--num-conns", fmt.Sprint(conns),
-			"--protocol-version", protogen.VersionName(primitive.ProtocolVersion(ctl)), "--max-protocol-version", protogen.VersionName(primitive.ProtocolVersion(maxV)))
+		args := []string{"--bind", v.addr, "--contact-points", cl.HostIP(0), "--port", fmt.Sprint(cl.Port), "--num-conns", fmt.Sprint(conns),
+			"--protocol-version", protogen.VersionName(primitive.ProtocolVersion(ctl)), "--max-protocol-version", protogen.VersionName(primitive.ProtocolVersion(maxV))}
+		if useTLS {
+			certFile, keyFile, err := c17ServerCert()
+			if err != nil {
+				cl.Close()
+				return nil, err
+			}
+			args = append(args, "--proxy-cert-file", certFile, "--proxy-key-file", keyFile)
+			v.tls = &tls.Config{InsecureSkipVerify: true}
+		}
+		v.cmd = exec.Command(bin, args...)
 		v.cmd.Env = []string{"PATH=/usr/bin:/bin", "HOME=/tmp"}
 		v.cmd.Stdout, v.cmd.Stderr = v.out, v.out
 		if err := v.cmd.Start(); err != nil {
@@ -169,7 +227,7 @@ func startVictim(realBinary bool, maxV, hosts, conns int) (*victim, error) {
 			cl.Close()
 			return nil, fmt.Errorf("%s exited at start-up: %s", v.kind, v.out.String())
 		}
-		c, err := rawcli.Dial(v.addr)
+		c, err := v.dial()
 		if err == nil {
 			if err = c.Startup(primitive.ProtocolVersion(ctl), "", 2*time.Second); err == nil {
 				v.canary = c
@@ -226,7 +284,7 @@ func (v *victim) canaryCheck(what string) *evid.Fail {
 			return f
 		}
 		// 0. the listener still accepts and serves new connections
-		if fc, err := rawcli.Dial(v.addr); err != nil {
+		if fc, err := v.dial(); err != nil {
 			if f := crashed(); f != nil {
 				return f
 			}
@@ -314,6 +372,10 @@ type c17Client struct {
 	Chunks     []c17Chunk `json:"chunks"`
 	End        string     `json:"end"` // close | halfclose | linger
 	Real       bool       `json:"real_binary"`
+	// TLS: "" = plain listener; "inner" = the listener speaks TLS and the hostile frames travel inside a proper TLS
+	// session; "raw" = the listener speaks TLS and the chunks are written to the bare TCP connection (a peer that
+	// never completes, or garbles, the TLS handshake)
+	TLS string `json:"tls,omitempty"`
 }
 
 var (
@@ -321,8 +383,8 @@ var (
 	victims  = map[string]*victim{}
 )
 
-func getVictim(real bool, maxV, hosts, conns int) (*victim, error) {
-	key := fmt.Sprintf("%v/%d/%d/%d", real, maxV, hosts, conns)
+func getVictim(real bool, maxV, hosts, conns int, useTLS bool) (*victim, error) {
+	key := fmt.Sprintf("%v/%d/%d/%d/%v", real, maxV, hosts, conns, useTLS)
 	victimMu.Lock()
 	defer victimMu.Unlock()
 	if v, ok := victims[key]; ok && v.alive() && !v.canary.PeerClosed() {
@@ -331,7 +393,7 @@ func getVictim(real bool, maxV, hosts, conns int) (*victim, error) {
 		v.stop()
 		delete(victims, key)
 	}
-	v, err := startVictim(real, maxV, hosts, conns)
+	v, err := startVictim(real, maxV, hosts, conns, useTLS)
 	if err != nil {
 		return nil, err
 	}
@@ -351,16 +413,28 @@ func dropVictim(v *victim) {
 }
 
 func c17ClientCheck(c c17Client) *evid.Fail {
-	v, err := getVictim(c.Real, c.MaxVersion, 1, 1)
+	v, err := getVictim(c.Real || c.TLS != "", c.MaxVersion, 1, 1, c.TLS != "")
 	if err != nil {
 		return evid.Failf("harness-victim", "%v", err)
 	}
-	cl, err := rawcli.Dial(v.addr)
+	var cl *rawcli.Client
+	if c.TLS == "raw" {
+		cl, err = rawcli.Dial(v.addr)
+	} else {
+		cl, err = v.dial()
+	}
 	if err != nil {
+		if c.TLS != "" {
+			// a previous case may have wedged the listener: let the canary decide
+			if f := v.canaryCheck("a previous client"); f != nil {
+				dropVictim(v)
+				return f
+			}
+		}
 		return evid.Failf("harness-client", "%v", err)
 	}
 	defer cl.Close()
-	if c.Startup != "-" {
+	if c.Startup != "-" && c.TLS != "raw" {
 		ver := primitive.ProtocolVersion(4)
 		if c.MaxVersion < 4 {
 			ver = 3
@@ -384,7 +458,8 @@ func c17ClientCheck(c c17Client) *evid.Fail {
 	case "halfclose":
 		cl.HalfClose()
 	}
-	f := v.canaryCheck(fmt.Sprintf("a client sent [%s] (startup %q, then %s)", strings.Join(notes, "; "), c.Startup, c.End))
+	tlsNote := map[string]string{"": "", "inner": " inside a TLS session", "raw": " on the bare TCP connection of the TLS listener"}[c.TLS]
+	f := v.canaryCheck(fmt.Sprintf("a client sent [%s]%s (startup %q, then %s)", strings.Join(notes, "; "), tlsNote, c.Startup, c.End))
 	if f != nil && (strings.HasPrefix(f.Sig, "panic") || strings.HasPrefix(f.Sig, "process") || strings.HasPrefix(f.Sig, "fatal") || strings.HasPrefix(f.Sig, "canary")) {
 		dropVictim(v)
 	}
@@ -568,6 +643,30 @@ func c17GenClient(rt *rapid.T) c17Client {
 		}
 		c.Chunks = append(c.Chunks, c17Chunk{Hex: hex.EncodeToString(raw), Note: note, Pause: rapid.SampledFrom([]int{0, 0, 0, 2}).Draw(rt, "pause")})
 	}
+	switch rapid.IntRange(0, 11).Draw(rt, "tls") {
+	case 0: // the same hostile frames, inside a TLS session
+		c.TLS = "inner"
+	case 1: // a peer that does not (or not properly) speak TLS to the TLS listener
+		c.TLS = "raw"
+		switch rapid.IntRange(0, 4).Draw(rt, "tlsraw") {
+		case 0:
+			c.Chunks = []c17Chunk{{Hex: "", Note: "nothing at all"}}
+		case 1:
+			n := rapid.IntRange(1, 9).Draw(rt, "part")
+			hello := []byte{0x16, 0x03, 0x01, 0x02, 0x00, 0x01, 0x00, 0x01, 0xfc, 0x03}
+			c.Chunks = []c17Chunk{{Hex: hex.EncodeToString(hello[:n]), Note: fmt.Sprintf("the first %d bytes of a TLS ClientHello record", n)}}
+		case 2:
+			b := rapid.SliceOfN(rapid.Byte(), 1, 64).Draw(rt, "garbage")
+			c.Chunks = []c17Chunk{{Hex: hex.EncodeToString(b), Note: fmt.Sprintf("%d random bytes", len(b))}}
+		case 3:
+			// keep the generated CQL frames: plain CQL spoken to the TLS port
+		case 4:
+			c.Chunks = []c17Chunk{{Hex: "16030100050100000100", Note: "a TLS record announcing a 1-byte ClientHello body, then silence"}}
+		}
+		if c.End == "close" {
+			c.End = "linger" // what matters is a peer that stays connected
+		}
+	}
 	return c
 }
 
@@ -584,7 +683,7 @@ type c17Backend struct {
 }
 
 func c17BackendCheck(c c17Backend) *evid.Fail {
-	v, err := getVictim(false, 4, c.Hosts, c.Conns)
+	v, err := getVictim(false, 4, c.Hosts, c.Conns, false)
 	if err != nil {
 		return evid.Failf("harness-victim", "%v", err)
 	}
@@ -706,7 +805,7 @@ func c17GenBackend(rt *rapid.T) c17Backend {
 func TestC17(t *testing.T) {
 	rec := evid.New("C17", "fault_enumeration",
 		"the proxy runs as a child process (the real cql-proxy binary or a host program with fast timers) in front of a fake cluster, with a well-behaved canary client; "+
-			"(a) hostile client streams: frames carrying hostile strings in every string-typed field (query text, PREPARE/options keyspace, USE, STARTUP keys/values, REGISTER event names, payload keys, value names, batch children), ids of odd lengths, batches with up to 65535 children, then header/framing mutations (any version byte, flags, opcode, declared lengths 0/-1/real+-1/16MiB, truncation, compressed flag with lying length prefixes, direction bit), under every max-version setting, with or without STARTUP/compression, followed by close/half-close/nothing; "+
+			"(a) hostile client streams: frames carrying hostile strings in every string-typed field (query text, PREPARE/options keyspace, USE, STARTUP keys/values, REGISTER event names, payload keys, value names, batch children), ids of odd lengths, batches with up to 65535 children, then header/framing mutations (any version byte, flags, opcode, declared lengths 0/-1/real+-1/16MiB, truncation, compressed flag with lying length prefixes, direction bit), under every max-version setting, with or without STARTUP/compression, followed by close/half-close/nothing; the same inside a TLS session against a TLS listener (--proxy-cert-file), and peers that never complete or garble the TLS handshake (nothing, partial ClientHello, random bytes, plain CQL) and stay connected; "+
 			"(b) hostile backend replies to forwarded requests and to the proxy's own requests (heartbeats, USE, control-connection system queries): wrong stream, request/unknown opcodes, wrong direction, short ERROR bodies, UNPREPARED, SUPPORTED, EVENT garbage, random bytes, 16MiB announced then silence, inconsistent ROWS, bogus compression; "+
 			"oracle: the child process is still running and the canary's system query, forwarded query and prepared execute are answered correctly; "+
 			"non-trivial = input that is not rejected by the 9-byte header check alone (valid header, or a mutation inside the body), or any hostile backend reply; distinct by case content")
@@ -744,7 +843,10 @@ func TestC17(t *testing.T) {
 	}, c17ClientCheck)
 	runProp(t, rec, "client", perShard(evid.Pick(1600, 48000)), func(rt *rapid.T) c17Client {
 		c := c17GenClient(rt)
-		labels := []string{"max:" + protogen.VersionName(primitive.ProtocolVersion(c.MaxVersion)), "end:" + c.End, map[bool]string{true: "victim:cql-proxy", false: "victim:proxyhost"}[c.Real]}
+		labels := []string{"max:" + protogen.VersionName(primitive.ProtocolVersion(c.MaxVersion)), "end:" + c.End, map[bool]string{true: "victim:cql-proxy", false: "victim:proxyhost"}[c.Real || c.TLS != ""]}
+		if c.TLS != "" {
+			labels = append(labels, "tls-listener:"+c.TLS)
+		}
 		key := ""
 		for _, ch := range c.Chunks {
 			w := strings.Fields(ch.Note)
